@@ -27,7 +27,7 @@ type shLive struct {
 }
 
 var liveGo = []string{"B", "b", "P", "p", "L", "l", "M", "m", "I", "N"}
-var liveJS = []string{"jb", "jp", "jl", "jm", "jn"}
+var liveJS = []string{"jb", "jp", "jl", "jm", "jn", "ja", "jq", "jv"}
 
 func genLive(r *gen.Rand) string {
 	var steps []string
@@ -55,6 +55,10 @@ func (k *checker) checkLive(s ShapeCase) bool {
 		k.fail("mismatch", "shape:live:set", "Set succeeds", err.Error(), "")
 		return false
 	}
+	// Go functions with pointer parameters: handed a member of the live struct, they work on that member
+	vm.Set("bumpInner", func(p *shS, d int) int { p.A += d; return p.A })
+	vm.Set("bumpP", func(p *shP, d int) int { p.N += d; return p.N })
+	vm.Set("ls", []int{1, 2, 3})
 	goView := func() string {
 		// the embedded field itself is unexported (its type name is) and stays hidden; its exported members are promoted
 		return fmt.Sprintf("%d|%s|%d|%d|%d|%d|%d|true|undefined", live.ID, live.Name, live.P.N, live.L[0], len(live.L), live.M["a"], live.Inner.A)
@@ -66,6 +70,7 @@ func (k *checker) checkLive(s ShapeCase) bool {
 		code := strings.TrimRight(st, "-0123456789")
 		n, _ := strconv.Atoi(st[len(code):])
 		js, want := "", ""
+		wantN := 0
 		switch code {
 		case "r":
 		case "B":
@@ -98,6 +103,21 @@ func (k *checker) checkLive(s ShapeCase) bool {
 			js, want = fmt.Sprintf("live.M.a = %d", n), "M"
 		case "jn":
 			js, want = fmt.Sprintf("live.Name = 'j%d'", n), "N"
+		case "ja":
+			// a struct-valued field handed to a *T parameter denotes that field
+			js, want = fmt.Sprintf("bumpInner(live.Inner, %d)", n), "A"
+			wantN = live.Inner.A + n
+		case "jq":
+			js, want = fmt.Sprintf("bumpP(live.P, %d)", n), "P"
+			wantN = live.P.N + n
+		case "jv":
+			// the stored value's conversion grows the same slice (len == cap: it is re-allocated): the
+			// store still goes to element 0 of the slice as it is afterwards
+			// (also on a slice bridged by value, where only the script can tell)
+			js, want = fmt.Sprintf("live.L[0] = {valueOf: function(){ live.L.push(77); return %d }}; ls[0] = {valueOf: function(){ ls.push(77); return %d }}; if (ls[0] !== %d || ls[ls.length - 1] !== 77) throw new Error('store into the slice lost: ' + ls.join())", n, n, n), "L"
+		}
+		if code != "ja" && code != "jq" {
+			wantN = n
 		}
 		hist := strings.Join(done, ",")
 		if js != "" {
@@ -115,7 +135,7 @@ func (k *checker) checkLive(s ShapeCase) bool {
 			k.c.Feature("live-write:" + strings.SplitN(res, ":", 2)[0])
 			if res == "ok" {
 				var got interface{}
-				var exp interface{} = n
+				var exp interface{} = wantN
 				switch want {
 				case "ID":
 					got = live.shBase.ID
@@ -127,6 +147,8 @@ func (k *checker) checkLive(s ShapeCase) bool {
 					got = live.M["a"]
 				case "N":
 					got, exp = live.Name, "j"+strconv.Itoa(n)
+				case "A":
+					got = live.Inner.A
 				}
 				if got != exp {
 					k.fail("mismatch", "shape:live:write", fmt.Sprintf("the write arrives in the Go struct (%v) or is refused loudly", exp), fmt.Sprintf("silent: Go holds %v after %s", got, js), hist)
